@@ -12,8 +12,9 @@ void *memmove(void *d, const void *s, size_t n) {
   return d;
 }
 void *memcpy(void *d, const void *s, size_t n) {
-  __CPROVER_assert(__CPROVER_r_ok(s, n), "memcpy source readable for n bytes");
-  __CPROVER_assert(__CPROVER_w_ok(d, n), "memcpy destination writable for n bytes");
+  /* (a zero-length copy from/to a null pointer is accepted: defined in C23, and what oscore_cbor_put_bytes(.., NULL, 0) does) */
+  __CPROVER_assert(n == 0 || __CPROVER_r_ok(s, n), "memcpy source readable for n bytes");
+  __CPROVER_assert(n == 0 || __CPROVER_w_ok(d, n), "memcpy destination writable for n bytes");
   unsigned char *dd = d; const unsigned char *ss = s;
   for (size_t i = 0; i < n; i++) dd[i] = ss[i];
   return d;
